@@ -107,7 +107,7 @@ def parse_states(out):
     return {"generated": int(m.group(1)), "distinct": int(m.group(2)), "queue": int(m.group(3))}
 
 
-def tlc_mc(module, cfg_text, consts=None, workers=None, timeout=600, heap="6g", coverage=False, sdir=None):
+def tlc_mc(module, cfg_text, consts=None, workers=None, timeout=600, heap="6g", coverage=False, sdir=None, simulate=None):
     """Model-check `module` with the given cfg text.  Returns a dict with
     ok (no error reported), states, transitions, violated (name or None), out."""
     d = sdir or spec_dir()
@@ -118,11 +118,20 @@ def tlc_mc(module, cfg_text, consts=None, workers=None, timeout=600, heap="6g", 
     args = ["-workers", str(workers or min(NCPU, 8)), "-metadir", md, "-config", cfgp]
     if coverage:
         args += ["-coverage", "1"]
+    if simulate:    # (num behaviours per worker, depth): random walks instead of exhaustive search
+        args += ["-simulate", "num=%d" % simulate[0], "-depth", str(simulate[1])]
     args += [module + ".tla"]
     t = time.time()
     p = java_tlc(args, d, timeout, heap=heap)
     out = p.stdout + p.stderr
     st = parse_states(out)
+    if simulate and st is None:
+        ms = re.search(r"The number of states generated: (\d+)", out)
+        mt = None
+        for mt in re.finditer(r"(\d+) traces generated", out):
+            pass
+        if ms:
+            st = {"generated": int(ms.group(1)), "distinct": 0, "queue": 0, "traces": int(mt.group(1)) if mt else 0}
     violated = None
     m = re.search(r"Error: Invariant (\S+) is violated", out)
     if m:
